@@ -208,6 +208,12 @@ class InitRejected(Exception):
     """The cohort does not satisfy a precondition of model initialisation (counted as excluded, not judged)."""
 
 
+def is_zero_scale_refusal(e) -> bool:
+    """The initial proposal scale of a population variable is |its initial value|; a value that is exactly 0 (feature mean
+    exactly 0.5 -> log_g = 0) makes every MCMC algorithm refuse to start. An input precondition, not a property matter."""
+    return type(e).__name__ == "LeaspyInputError" and "Scale of variable" in str(e)
+
+
 def live_state(cfg, case, *, latents="mode", seed=0):
     """Model initialised on the cohort with data and individual latent variables in its state
     (what `_initialize_algo` of the MCMC algorithms does)."""
